@@ -838,11 +838,21 @@ int main(int argc, char **argv)
             std::string cid = top.l.at(1).a;
             g_cur = cid;
             unsigned long c0, d0, c1, d1;
+            fprintf(out, "{\"c\":%s,\"begin\":%ld}\n", jstr(cid).c_str(), ordinal);
+            fflush(out);
+            // a case id ending in "~2" is run twice; outputs and the live-object balance are those of the second pass
+            // (objects created once per process - lazily built singletons and caches - are then already there)
+            if (cid.size() > 2 and cid.compare(cid.size() - 2, 2, "~2") == 0) {
+                static FILE *devnull = fopen("/dev/null", "w");
+                Ctx warm;
+                alarm(g_case_timeout);
+                for (size_t i = 2; i < top.n(); i++)
+                    run_stmt(warm, cid, i - 2, top.l[i], devnull);
+                alarm(0);
+            }
             {
                 Ctx ctx;
                 live_counts(c0, d0);
-                fprintf(out, "{\"c\":%s,\"begin\":%ld}\n", jstr(cid).c_str(), ordinal);
-                fflush(out);
                 alarm(g_case_timeout);
                 for (size_t i = 2; i < top.n(); i++)
                     run_stmt(ctx, cid, i - 2, top.l[i], out);
